@@ -54,6 +54,9 @@ type Exec struct {
 	loops    map[*ssa.Function]*LoopInfo
 	shape    string
 	shapeObj *Shape
+	unfolding bool
+	evalFrozen bool // model walk in progress: no check-sat between evaluations
+	refined   map[string]bool // predicate unfoldings added while refining a candidate model
 	noAssume bool // the goal being checked is not assumed afterwards (lockset obligations)
 	witLv    [][]*Term // witness constants of skolemised assumptions, per solver level
 	ghostOld *Snapshot
@@ -73,6 +76,7 @@ func (e *Exec) assumeRaw(t *Term) {
 	if t == TTrue {
 		return
 	}
+	e.unfoldAssumed(t)
 	if hasQuant(t, map[*Term]bool{}) {
 		var made []*Term
 		t = skolemize(t, false, true, &made)
@@ -217,6 +221,15 @@ func (e *Exec) check(st *State, fr *Frame, class string, instr ssa.Instruction, 
 		if len(e.safeTags) > 0 {
 			tags = e.safeTags
 		}
+	}
+	if len(onlyClasses) > 0 && !classSelected(class) {
+		// this run decides other obligation classes only (GOVC_CLASSES): the goal is
+		// taken as an assumption here and proved by the run of its own property
+		if !e.noAssume {
+			e.ensureDecls(goal)
+			e.assume(goal)
+		}
+		return true
 	}
 	name := e.siteName(fr, class, instr, text)
 	o := e.oblig(name, class, tags)
@@ -423,6 +436,11 @@ func (e *Exec) prove(st *State, o *Oblig, goal *Term, gsks []*Term) CheckResult 
 			s.Pop()
 		}
 	}
+	if pat := os.Getenv("GOVC_DUMP_OBLIG"); pat != "" && strings.Contains(o.Name, pat) {
+		dumpN++
+		os.MkdirAll("/var/tmp/dumps", 0o755)
+		os.WriteFile(fmt.Sprintf("/var/tmp/dumps/%d-%d-%s.smt2", os.Getpid(), dumpN, cr.Res), []byte("; "+o.Name+" by "+cr.By+"\n"+script), 0o644)
+	}
 	if pushed {
 		e.pop()
 		if cr.Res == "unsat" {
@@ -432,6 +450,8 @@ func (e *Exec) prove(st *State, o *Oblig, goal *Term, gsks []*Term) CheckResult 
 	cr.Secs = time.Since(t0).Seconds()
 	return cr
 }
+
+var dumpN int
 
 func (e *Exec) fail(name, class, detail string) {
 	o := e.oblig(name, class, e.curTags)
@@ -1358,4 +1378,78 @@ func (e *Exec) stepUnwind(st *State, fr *Frame) bool {
 	}
 	st.top().unwind = true
 	return false
+}
+
+// onlyClasses: obligation class prefixes to prove in this process (empty: all)
+var onlyClasses []string
+
+func classSelected(class string) bool {
+	if class == "VACUITY" || class == "UNWIND" || class == "BUDGET" {
+		return true
+	}
+	for _, c := range onlyClasses {
+		if strings.HasPrefix(class, c) {
+			return true
+		}
+	}
+	return false
+}
+
+// unfoldAssumed: for every predicate application p(args) that occurs positively
+// in an assumed formula (ground arguments), the one-level unfolding
+// p(args) => body[args] is assumed as well. It is an instance of the
+// predicate's defining axiom; stated here, the quantifiers of the body (e.g.
+// "every child is in wire form") become hypotheses of the path that the
+// Go-side instantiation can reach.
+func (e *Exec) unfoldAssumed(t *Term) {
+	if len(predDefs) == 0 || e.unfolding || os.Getenv("GOVC_UNFOLD") == "" {
+		return // experimental: off by default (it made other proofs of the decode path slower)
+	}
+	var apps []*Term
+	var walk func(t *Term, pos bool)
+	walk = func(t *Term, pos bool) {
+		if t.S != SBool {
+			return
+		}
+		switch t.Op {
+		case "and", "or":
+			for _, a := range t.Args {
+				walk(a, pos)
+			}
+		case "=>":
+			walk(t.Args[0], !pos)
+			walk(t.Args[1], pos)
+		case "not":
+			walk(t.Args[0], !pos)
+		default:
+			if pos {
+				if _, ok := predDefs[t.Op]; ok && !hasBound(t) {
+					apps = append(apps, t)
+				}
+			}
+		}
+	}
+	walk(t, true)
+	e.unfolding = true
+	defer func() { e.unfolding = false }()
+	for _, app := range apps {
+		app := app
+		d := predDefs[app.Op]
+		if len(d.qs) != len(app.Args) {
+			continue
+		}
+		e.assumeOnce(app, func() *Term {
+			m := map[*Term]*Term{}
+			for i, q := range d.qs {
+				m[q] = app.Args[i]
+			}
+			return Implies(app, Subst(d.body, m))
+		})
+	}
+}
+
+// lockRelated: a pre-condition that speaks about lock ownership (held / heldw /
+// guard) belongs to the lockset obligations
+func lockRelated(text string) bool {
+	return strings.Contains(text, "held(") || strings.Contains(text, "heldw(")
 }
